@@ -120,11 +120,16 @@ func run(dir string, name string, args ...string) (string, error) {
 type patch struct{ file, old, new string }
 
 var rtPatches = []patch{
-	{"select.go", "j := cheaprandn(uint32(norder + 1))", "j := verifSelectRandn(uint32(norder + 1))"},
-	{"rand.go", "func rand32() uint32 {\n", "func rand32() uint32 {\n\tif s := verifSelectSeed.Load(); s != 0 {\n\t\treturn 0x4C957F2D\n\t}\n"},
-	{"rand.go", "func maps_rand() uint64 {\n", "func maps_rand() uint64 {\n\tif s := verifSelectSeed.Load(); s != 0 {\n\t\treturn 0x5851F42D4C957F2D\n\t}\n"},
-	{"alg.go", "hashkey[i] = uintptr(bootstrapRand())", "hashkey[i] = uintptr(0x9E3779B97F4A7C15 * uint64(i+1))"},
-	{"alg.go", "key[i] = bootstrapRand()", "key[i] = 0x9E3779B97F4A7C15 * uint64(i+1)"},
+	{"runtime/select.go", "j := cheaprandn(uint32(norder + 1))", "j := verifSelectRandn(uint32(norder + 1))"},
+	{"runtime/rand.go", "func rand32() uint32 {\n", "func rand32() uint32 {\n\tif s := verifSelectSeed.Load(); s != 0 {\n\t\treturn 0x4C957F2D\n\t}\n"},
+	{"runtime/rand.go", "func maps_rand() uint64 {\n", "func maps_rand() uint64 {\n\tif s := verifSelectSeed.Load(); s != 0 {\n\t\treturn 0x5851F42D4C957F2D\n\t}\n"},
+	{"runtime/alg.go", "hashkey[i] = uintptr(bootstrapRand())", "hashkey[i] = uintptr(0x9E3779B97F4A7C15 * uint64(i+1))"},
+	{"runtime/alg.go", "key[i] = bootstrapRand()", "key[i] = 0x9E3779B97F4A7C15 * uint64(i+1)"},
+	// sync.Pool: which item Get returns depends on the P a goroutine happens to run on and on GC
+	// timing. In simulation mode every pool is a LIFO free list (one of sync.Pool's legal behaviours).
+	{"sync/pool.go", "\tNew func() any\n}\n", "\tNew func() any\n\n\tverifMu   Mutex\n\tverifList []any\n}\n\n// VerifDeterministic switches every Pool to a LIFO free list (simulation builds only).\nvar VerifDeterministic atomic.Bool\n"},
+	{"sync/pool.go", "func (p *Pool) Put(x any) {\n\tif x == nil {\n\t\treturn\n\t}\n", "func (p *Pool) Put(x any) {\n\tif x == nil {\n\t\treturn\n\t}\n\tif VerifDeterministic.Load() {\n\t\tp.verifMu.Lock()\n\t\tp.verifList = append(p.verifList, x)\n\t\tp.verifMu.Unlock()\n\t\treturn\n\t}\n"},
+	{"sync/pool.go", "func (p *Pool) Get() any {\n", "func (p *Pool) Get() any {\n\tif VerifDeterministic.Load() {\n\t\tp.verifMu.Lock()\n\t\tvar x any\n\t\tif n := len(p.verifList); n > 0 {\n\t\t\tx = p.verifList[n-1]\n\t\t\tp.verifList[n-1] = nil\n\t\t\tp.verifList = p.verifList[:n-1]\n\t\t}\n\t\tp.verifMu.Unlock()\n\t\tif x == nil && p.New != nil {\n\t\t\tx = p.New()\n\t\t}\n\t\treturn x\n\t}\n"},
 }
 
 func buildRuntimeOverlay(replace map[string]string) {
@@ -133,7 +138,7 @@ func buildRuntimeOverlay(replace map[string]string) {
 	src := map[string]string{}
 	for _, p := range rtPatches {
 		if _, ok := src[p.file]; !ok {
-			b, err := os.ReadFile(filepath.Join(goRoot, "src/runtime", p.file))
+			b, err := os.ReadFile(filepath.Join(goRoot, "src", p.file))
 			if err != nil {
 				fatal2("runtime overlay: %v", err)
 			}
@@ -145,8 +150,9 @@ func buildRuntimeOverlay(replace map[string]string) {
 		src[p.file] = strings.Replace(src[p.file], p.old, p.new, 1)
 	}
 	for f, s := range src {
+		must(os.MkdirAll(filepath.Dir(filepath.Join(rt, f)), 0o755))
 		must(writeIfChanged(filepath.Join(rt, f), []byte(s)))
-		replace[filepath.Join(goRoot, "src/runtime", f)] = filepath.Join(rt, f)
+		replace[filepath.Join(goRoot, "src", f)] = filepath.Join(rt, f)
 	}
 	b, err := os.ReadFile(filepath.Join(verifDir, "rt/verif_select.go"))
 	must(err)
